@@ -40,6 +40,12 @@ def list_checks():
 # replay / minimisation (program-text cases)
 
 def replay_cmd(cfg, binpath, pid, path):
+    try:
+        head = open(path, errors="replace").read(300)
+    except OSError:
+        head = ""
+    if "#! kind handle_index" in head:
+        return [os.path.join(vflib.harness_dir("opt"), "t_handles"), "--replay", path]
     return [binpath, "--replay", pid, path]
 
 
@@ -150,6 +156,27 @@ def run_regressions(cfg, binpath, pid):
     return len(files), bad
 
 
+def pre_handles_exhaustive(pid, violations):
+    """C08 part 1: complete enumeration of [0, 2^30) in the optimised build; returns coverage keys"""
+    bins = build_targets(["t_handles"])
+    d = os.path.join(WORK, pid, "handles")
+    os.makedirs(d, exist_ok=True)
+    out = os.path.join(d, "stats.json")
+    r = subprocess.run([bins["t_handles"], "--out", out], stdout=subprocess.PIPE, stderr=subprocess.STDOUT, text=True)
+    s = json.load(open(out))
+    if r.returncode != 0 or s["bad_index"] >= 0:
+        rp = os.path.join(REPLAYS, pid)
+        os.makedirs(rp, exist_ok=True)
+        path = os.path.join(rp, "fail-index-%d.txt" % s["bad_index"])
+        open(path, "w").write("#! id %s\n#! kind handle_index\nindex %d\n# %s\n" % (pid, s["bad_index"], s["message"]))
+        violations.append((path, "handle conversion identity fails at index %d: %s" % (s["bad_index"], s["message"])))
+    return {"handle_indices_enumerated": s["indices_checked"], "handle_index_space": s["space"], "exhaustive": bool(s["exhaustive"]),
+            "exhaustive_scope": "handle conversion identities over every index in [0, 2^30); the history part is sampled"}
+
+
+PRE = {"handles_exhaustive": pre_handles_exhaustive}
+
+
 def run_rc_program(pid, tier, cfg):
     t0 = time.time()
     tcfg = dict(cfg[tier])
@@ -166,6 +193,9 @@ def run_rc_program(pid, tier, cfg):
         violations.append((f, "regression replay fails: " + out.strip().splitlines()[-1] if out.strip() else "regression"))
     wdir = os.path.join(WORK, pid)
     shutil.rmtree(wdir, ignore_errors=True)
+    extra_cov = {}
+    if cfg.get("pre"):
+        extra_cov = PRE[cfg["pre"]](pid, violations)
     procs = []
     nworkers = min(tcfg["workers"], NCPU)
     for i in range(nworkers):
@@ -247,6 +277,7 @@ def run_rc_program(pid, tier, cfg):
         "nonreproducible_candidates": nonrepro,
         "rc_params": "max_success=%d max_size=%d len_scale=%s per worker" % (tcfg["max_success"], tcfg["max_size"], tcfg.get("len_scale")),
     }
+    cov.update(extra_cov)
     for k in known:
         log("KNOWN-FINDING: property=%s %s" % (pid, k.get("what", "")))
     write_evidence(pid, tier, cfg, cov, time.time() - t0, len(violations))
